@@ -32,7 +32,7 @@ CONFIG = {
     'quick': {'shards': 16, 'cases': 4, 'timeout': 900, 'floor': 30},
     'thorough': {'shards': 32, 'cases': 60, 'timeout': 3400, 'floor': 900},
 }
-REQUIRED = ['randmaxvar_large_batches', 'randmaxvar_batch_refused', 'bounds_dict_not_in_parameter_order', 'contract_acquire', 'acq_LCBSC', 'acq_MaxVar', 'acq_RandMaxVar_metropolis', 'acq_RandMaxVar_nuts', 'acq_ExpIntVar', 'acq_UniformAcquisition',
+REQUIRED = ['e2e_surrogate_order_permuted', 'randmaxvar_large_batches', 'randmaxvar_batch_refused', 'bounds_dict_not_in_parameter_order', 'contract_acquire', 'acq_LCBSC', 'acq_MaxVar', 'acq_RandMaxVar_metropolis', 'acq_RandMaxVar_nuts', 'acq_ExpIntVar', 'acq_UniformAcquisition',
             'acq_gradient_checked', 'e2e_runs', 'e2e_scheduled_runs', 'e2e_evidence_compared', 'e2e_acquired_points_checked', 'noise_dict', 'noise_scalar',
             'prior_wider_than_bounds', 'prior_inside_bounds', 'init_precomputed', 'init_zero', 'init_count']
 
@@ -223,9 +223,13 @@ def _run_bo(ctx, client, cfg, mpb):
     ctx.event('bounds_dict_not_in_parameter_order', bool(cfg['seed'] % 2))
     kw = dict(bounds=Bx, batch_size=cfg['bs'], seed=cfg['seed'], max_parallel_batches=mpb, batches_per_acquisition=cfg['bpa'],
               acq_noise_var=cfg['noise'], update_interval=cfg['ui'], initial_evidence=init)
+    order = ['a', 'b']
     if cfg['acq'] != 'default':
-        gp = GPyRegression(['a', 'b'], bounds=Bx)
-        prior = ModelPrior(m)
+        if (cfg['seed'] // 2) % 2:
+            order = ['b', 'a']           # a user-supplied surrogate may list the parameters in its own order
+        ctx.event('e2e_surrogate_order_permuted', order == ['b', 'a'])
+        gp = GPyRegression(order, bounds=Bx)
+        prior = ModelPrior(m, parameter_names=order)
         cls = {'maxvar': MaxVar, 'randmaxvar': RandMaxVar, 'uniform': UniformAcquisition}[cfg['acq']]
         akw = dict(sampler='metropolis', n_samples=40) if cfg['acq'] == 'randmaxvar' else {}
         kw['target_model'] = gp
@@ -236,13 +240,13 @@ def _run_bo(ctx, client, cfg, mpb):
     upd = bo.update
 
     def rec_update(batch, i):
-        cons.append((i, np.column_stack([batch['a'], batch['b']]).copy(), np.array(batch['d']).reshape(-1).copy()))
+        cons.append((i, np.column_stack([batch[order[0]], batch[order[1]]]).copy(), np.array(batch['d']).reshape(-1).copy()))
         return upd(batch, i)
     bo.update = rec_update
     bo.infer(cfg['n_evidence'], bar=False)
     X = np.array(bo.target_model.X)
     Y = np.array(bo.target_model.Y)[:, 0]
-    Xc = np.vstack(([np.column_stack([pre['a'], pre['b']])] if pre else []) + [c[1] for c in cons])
+    Xc = np.vstack(([np.column_stack([pre[order[0]], pre[order[1]]])] if pre else []) + [c[1] for c in cons])
     Yc = np.concatenate(([np.asarray(pre['d']).reshape(-1)] if pre else []) + [c[2] for c in cons])
     ctx.event('e2e_evidence_compared')
     if not (X.shape == Xc.shape and np.array_equal(X, Xc) and np.array_equal(Y, Yc)):
@@ -254,7 +258,8 @@ def _run_bo(ctx, client, cfg, mpb):
         raise Violation('consumed-indices', 'batches consumed out of order: %s' % [c[0] for c in cons][:20])
     n_init = bo.n_initial_evidence - bo.n_precomputed_evidence
     lo, hi = np.array([B['a'][0], B['b'][0]]), np.array([B['a'][1], B['b'][1]])
-    consumed_pts = np.vstack([c[1] for c in cons]) if cons else np.zeros((0, 2))
+    back = [order.index('a'), order.index('b')]          # consumed columns are in the surrogate's order; bounds below are (a, b)
+    consumed_pts = (np.vstack([c[1] for c in cons]) if cons else np.zeros((0, 2)))[:, back]
     acqd = consumed_pts[max(n_init, 0):]
     simulated = np.vstack(REC) if REC else np.zeros((0, 2))
     sim_after = simulated[max(n_init, 0):]
